@@ -155,6 +155,7 @@ func (m *Manager) acquireSemaphore(ctx context.Context) error {
 		return m.sigs.term.Err()
 
 	case m.sem.Get() <- struct{}{}:
+		drpcdebug.Point("manager.sem.acquired", m.tr)
 		if err := m.waitForPreviousStream(ctx); err != nil {
 			m.sem.Recv()
 			return err
@@ -198,6 +199,7 @@ func (m *Manager) waitForPreviousStream(ctx context.Context) (err error) {
 func (m *Manager) terminate(err error) {
 	if m.sigs.term.Set(err) {
 		m.log("TERM", func() string { return fmt.Sprint(err) })
+		drpcdebug.Point("manager.terminate.beforeClose", m.tr)
 		m.sigs.tport.Set(m.tr.Close())
 		m.sbuf.Close()
 	}
@@ -243,11 +245,13 @@ func (m *Manager) manageReader() {
 		}
 
 		m.log("READ", pkt.String)
+		drpcdebug.Point("manager.reader.read", m.tr)
 
 	again:
 		switch curr := m.sbuf.Get(); {
 		// if the packet is for the current stream, deliver it.
 		case curr != nil && pkt.ID.Stream == curr.ID():
+			drpcdebug.Point("manager.reader.beforeHandle", m.tr)
 			if err := curr.HandlePacket(pkt); err != nil {
 				m.terminate(managerClosed.Wrap(err))
 				return
@@ -262,6 +266,7 @@ func (m *Manager) manageReader() {
 			if curr != nil && !curr.IsTerminated() {
 				curr.Cancel(context.Canceled)
 			}
+			drpcdebug.Point("manager.reader.beforeQueue", m.tr)
 
 			select {
 			case m.pkts <- pkt:
@@ -278,6 +283,7 @@ func (m *Manager) manageReader() {
 			if curr != nil && !curr.IsTerminated() {
 				curr.Cancel(context.Canceled)
 			}
+			drpcdebug.Point("manager.reader.beforeWait", m.tr)
 
 			if !m.sbuf.Wait(curr.ID()) {
 				return
@@ -303,6 +309,7 @@ func (m *Manager) newStream(ctx context.Context, sid uint64, kind, rpc string) (
 	stream := drpcstream.NewWithOptions(ctx, sid, m.wr, opts)
 	select {
 	case m.streams <- streamInfo{ctx: ctx, stream: stream}:
+		drpcdebug.Point("manager.newstream.beforeSet", m.tr)
 		m.sbuf.Set(stream)
 		m.log("STREAM", stream.String)
 		return stream, nil
@@ -333,6 +340,7 @@ func (m *Manager) manageStreams() {
 func (m *Manager) manageStream(ctx context.Context, stream *drpcstream.Stream) {
 	select {
 	case <-m.sigs.term.Signal():
+		drpcdebug.Point("manager.stream.term", m.tr)
 		err := m.sigs.term.Err()
 		if errors.Is(err, io.EOF) {
 			err = context.Canceled
@@ -342,14 +350,17 @@ func (m *Manager) manageStream(ctx context.Context, stream *drpcstream.Stream) {
 		m.sem.Recv()
 
 	case <-m.sfin:
+		drpcdebug.Point("manager.stream.fin", m.tr)
 		m.sem.Recv()
 
 	case <-ctx.Done():
 		m.log("CANCEL", stream.String)
+		drpcdebug.Point("manager.stream.ctx", m.tr)
 
 		if m.opts.SoftCancel {
 			// allow a new stream to begin.
 			m.sem.Recv()
+			drpcdebug.Point("manager.stream.beforeSendCancel", m.tr)
 
 			// attempt to send the soft cancel. if it fails or if the stream is
 			// busy sending something else, then we have to hard cancel.
@@ -360,6 +371,7 @@ func (m *Manager) manageStream(ctx context.Context, stream *drpcstream.Stream) {
 				m.terminate(ctx.Err())
 			}
 			stream.Cancel(ctx.Err())
+			drpcdebug.Point("manager.stream.softWaitFin", m.tr)
 
 			// wait for the stream to signal that it is finished.
 			<-m.sfin
@@ -374,6 +386,7 @@ func (m *Manager) manageStream(ctx context.Context, stream *drpcstream.Stream) {
 				m.log("CLEAN", stream.String)
 			}
 
+			drpcdebug.Point("manager.stream.hardWaitFin", m.tr)
 			// wait for the stream to signal that it is finished.
 			<-m.sfin
 
@@ -466,6 +479,7 @@ func (m *Manager) NewServerStream(ctx context.Context) (stream *drpcstream.Strea
 			case drpcwire.KindInvokeMetadata:
 				meta, err = drpcmetadata.Decode(pkt.Data)
 				m.pdone.Send()
+				drpcdebug.Point("manager.server.meta", m.tr)
 
 				if err != nil {
 					return nil, "", err
@@ -475,6 +489,7 @@ func (m *Manager) NewServerStream(ctx context.Context) (stream *drpcstream.Strea
 			case drpcwire.KindInvoke:
 				rpc = string(pkt.Data)
 				m.pdone.Send()
+				drpcdebug.Point("manager.server.invoke", m.tr)
 
 				if metaID == pkt.ID.Stream {
 					ctx = drpcmetadata.AddPairs(ctx, meta)
